@@ -48,10 +48,20 @@ pub enum End {
     TargetRefused,
     /// the requested name does not resolve
     TargetUnresolvable,
+    /// one-shot upload closed at once towards a target (small receive buffer) that comes for it only after every timer of
+    /// the relay has run out (12.5 s): everything the application wrote is still delivered, then end-of-stream
+    ColdUploadLateTarget,
+    /// the server process is killed while the flows are open (the link fails without any announcement): the application and
+    /// the target observe end-of-stream or a reset and the client lets go of the flows
+    ServerKilled,
+    /// the same with the client process killed: the target observes the end and the server lets go
+    ClientKilled,
 }
 
 impl End {
-    pub const ALL: [End; 15] = [
+    /// endings that take ten seconds and more, or end the cluster: rare in generated batches
+    pub const EXPENSIVE: [End; 3] = [End::ColdUploadLateTarget, End::ServerKilled, End::ClientKilled];
+    pub const ALL: [End; 18] = [
         End::AppClosesClean,
         End::AppClosesInFlight,
         End::TargetClosesClean,
@@ -67,6 +77,9 @@ impl End {
         End::AppClosesTargetStalled,
         End::TargetRefused,
         End::TargetUnresolvable,
+        End::ColdUploadLateTarget,
+        End::ServerKilled,
+        End::ClientKilled,
     ];
 }
 
@@ -111,6 +124,15 @@ fn run_one(client_port: u16, f: &FlowEnd, tag: u64, tap: Option<&Tap>, keep: &st
             let (rep, _) = run_flow(client_port, &sc, tag);
             (rep.fail, true)
         }
+        End::ColdUploadLateTarget => {
+            let n = (f.up.max(40_000)).saturating_mul(8).min(900_000);
+            let r = crate::sys::flow::cold_upload_opt(client_port, f.hs, n, tag, 12_500, true);
+            (r.err().map(|mut e| {
+                e.sig = format!("{}-by-a-late-target", e.sig);
+                e
+            }), true)
+        }
+        End::ServerKilled | End::ClientKilled => unreachable!("handled by exec_once"),
         End::ColdUploadThenClose => {
             let n = (f.up.max(20_000)).saturating_mul(8).min(1_400_000);
             let r = crate::sys::flow::cold_upload(client_port, f.hs, n, tag, if f.down % 3 == 0 { 900 + (f.down % 700) as u16 } else { (f.down % 300) as u16 });
@@ -368,6 +390,7 @@ pub fn exec_once(c: &Case) -> CaseResult {
     // link cuts end every flow that is open at that moment: they run after the others, one at a time
     let (cuts, others): (Vec<(usize, &FlowEnd)>, Vec<(usize, &FlowEnd)>) = c.flows.iter().enumerate().partition(|(_, f)| f.end == End::LinkCut);
     let (stalled, others): (Vec<(usize, &FlowEnd)>, Vec<(usize, &FlowEnd)>) = others.into_iter().partition(|(_, f)| f.end == End::AppClosesTargetStalled);
+    let (killed, others): (Vec<(usize, &FlowEnd)>, Vec<(usize, &FlowEnd)>) = others.into_iter().partition(|(_, f)| matches!(f.end, End::ServerKilled | End::ClientKilled));
     if c.concurrent {
         std::thread::scope(|sc| {
             let hs: Vec<_> = others.iter().map(|(i, f)| sc.spawn(move || run_one(port, f, 500 + *i as u64, None, keep))).collect();
@@ -437,9 +460,70 @@ pub fn exec_once(c: &Case) -> CaseResult {
             fails.extend(fl);
         }
     }
+    // a process is killed while flows are open: the last thing that happens to this cluster
+    let mut dead: Option<&'static str> = None;
+    if !killed.is_empty() && fails.is_empty() {
+        let who = if killed[0].1.end == End::ServerKilled { "server" } else { "client" };
+        let mut open = vec![];
+        for (i, f) in &killed {
+            let sc = FlowScript { hs: f.hs, first: f.first, ops: vec![Op::AppWrite(f.up.max(1)), Op::TargetWrite(f.down.max(1)), Op::Sync], ending: Ending::Open, slow_reader_ms: 0, idle_ms: 0 };
+            let (rep, fl) = run_flow(port, &sc, 700 + *i as u64);
+            match (rep.fail, fl) {
+                (Some(e), _) => fails.push(e),
+                (None, Some(fl)) => open.push(fl),
+                _ => {}
+            }
+        }
+        if fails.is_empty() && !open.is_empty() {
+            moved = true;
+            // the survivor's descriptors before the kill (for the message only)
+            let held = if who == "server" { procfs::fd_count(cl.client.pid) } else { procfs::fd_count(cl.server.pid) };
+            if who == "server" {
+                cl.server.kill();
+            } else {
+                cl.client.kill();
+            }
+            dead = Some(who);
+            let t0 = Instant::now();
+            // a stream transport learns of the peer's death from the kernel at once; QUIC has nothing but its idle timeout
+            // (30 s with the defaults both sides use)
+            let max = if spec.transport == Transport::Quic { Duration::from_secs(if rt::failed_already() { 40 } else { 50 }) } else { deadline() };
+            for fl in &open {
+                // the side whose process died sees its socket closed by the kernel; the other side depends on the survivor
+                let (a, _) = fl.app_rx.wait(max.saturating_sub(t0.elapsed()).max(Duration::from_millis(200)), |r| r.eof || r.err.is_some());
+                let (t, _) = fl.tgt_rx.wait(max.saturating_sub(t0.elapsed()).max(Duration::from_millis(200)), |r| r.eof || r.err.is_some());
+                if !(a.eof || a.err.is_some()) {
+                    fails.push(soft("no-eof-at-app-after-a-process-died", format!("the {} process was killed with {} flows open; {:?} later an application has seen neither end-of-stream nor a reset", who, open.len(), t0.elapsed())));
+                    break;
+                }
+                if !(t.eof || t.err.is_some()) {
+                    fails.push(soft("no-eof-at-target-after-a-process-died", format!("the {} process was killed with {} flows open; {:?} later a target has seen neither end-of-stream nor a reset", who, open.len(), t0.elapsed())));
+                    break;
+                }
+            }
+            res.labels.push(format!("peer-death-noticed-after-s:{}", t0.elapsed().as_secs()));
+            if fails.is_empty() {
+                // the survivor lets go of the flows
+                let (pid, base_n) = if who == "server" { (cl.client.pid, base.0) } else { (cl.server.pid, base.1) };
+                let t1 = Instant::now();
+                let mut now = procfs::fd_count(pid);
+                while now > base_n && t1.elapsed() < Duration::from_secs(if rt::failed_already() { 6 } else { 20 }) {
+                    std::thread::sleep(Duration::from_millis(50));
+                    now = procfs::fd_count(pid);
+                }
+                if now > base_n {
+                    fails.push(soft(
+                        &format!("descriptors-not-released/{}-after-the-{}-died", if who == "server" { "client" } else { "server" }, who),
+                        format!("the {} process was killed with {} flows open; the surviving process still holds {} descriptors (idle baseline {}, {} before the kill): {}", who, open.len(), now, base_n, held, fd_report(pid)),
+                    ));
+                }
+            }
+        }
+        drop(open);
+    }
     let mut fail = fails.iter().find(|f| !f.soft).cloned().or_else(|| fails.first().cloned());
     // every flow of the batch has ended: descriptors must return to the idle baseline
-    if fail.is_none() {
+    if fail.is_none() && dead.is_none() {
         // (after a stall the server's pending connect completes with the kernel's next SYN retransmission: up to 16 s more)
         let max = Duration::from_secs(if long_settle { 45 } else if rt::failed_already() { 5 } else { 20 });
         let (a, b) = settle(&cl, base.0, base.1, max);
@@ -465,8 +549,17 @@ pub fn exec_once(c: &Case) -> CaseResult {
             ));
         }
     }
-    if let Err(h) = cl.health() {
-        fail = Some(FlowFail { soft: false, sig: "process-or-task-died".into(), msg: h });
+    if dead.is_none() {
+        if let Err(h) = cl.health() {
+            fail = Some(FlowFail { soft: false, sig: "process-or-task-died".into(), msg: h });
+        }
+    } else {
+        let survivor = if dead == Some("server") { &mut cl.client } else { &mut cl.server };
+        if let Some(p) = survivor.panicked() {
+            fail = Some(FlowFail { soft: false, sig: "process-or-task-died".into(), msg: format!("the surviving process: task panicked: {}", p) });
+        } else if let Some(st) = survivor.exited() {
+            fail = Some(FlowFail { soft: false, sig: "process-or-task-died".into(), msg: format!("the surviving process exited ({})", st) });
+        }
     }
     res.labels.push(format!("transport:{}", spec.transport.name()));
     res.labels.push(format!("proto:{}", spec.proto.protocol_name()));
@@ -503,7 +596,7 @@ pub fn exec_confirmed(c: &Case) -> (CaseResult, u32) {
 
 fn flow_strategy() -> BoxedStrategy<FlowEnd> {
     let len = || crate::props::c01::len_strategy(150_000);
-    (crate::props::c01::hs_strategy(), len(), len(), len(), prop_oneof![9 => proptest::sample::select(End::ALL.to_vec()), 1 => proptest::sample::select(vec![End::AppClosesClean, End::TargetClosesClean, End::AppResets, End::TargetResets, End::ColdUploadThenClose, End::TargetRefused, End::TargetAnswersThenResets, End::AppSendsThenResets])]).prop_map(|(hs, first, up, down, end)| FlowEnd { hs, first, up, down, end }).boxed()
+    (crate::props::c01::hs_strategy(), len(), len(), len(), prop_oneof![18 => proptest::sample::select(End::ALL.iter().copied().filter(|e| !End::EXPENSIVE.contains(e)).collect::<Vec<_>>()), 1 => proptest::sample::select(End::EXPENSIVE.to_vec()), 2 => proptest::sample::select(vec![End::AppClosesClean, End::TargetClosesClean, End::AppResets, End::TargetResets, End::ColdUploadThenClose, End::TargetRefused, End::TargetAnswersThenResets, End::AppSendsThenResets])]).prop_map(|(hs, first, up, down, end)| FlowEnd { hs, first, up, down, end }).boxed()
 }
 
 fn case_strategy(tier: Tier, combo: Option<(Proto, Transport)>) -> BoxedStrategy<Case> {
@@ -548,7 +641,8 @@ impl SubCheck for Teardown {
         out
     }
     fn workers(&self) -> usize {
-        (rt::threads() / 2).clamp(1, 8)
+        // the cases spend their time waiting (grace periods, late peers, idle time-outs), not computing
+        rt::threads().clamp(1, 14)
     }
     fn max_shrink_iters(&self) -> u32 {
         24
@@ -569,7 +663,7 @@ pub fn run(ctx: &mut PropCtx) {
         "clean closes must deliver everything the closer wrote before closing (strict); abortive endings only require that the other side observes end-of-stream or a reset".into(),
         "'promptly' = within 12 s for an event that takes milliseconds, confirmed on two more fresh clusters".into(),
         "the idle baseline is the smallest descriptor count seen after a warm-up flow has ended; after the batch the counts are polled for up to 20 s".into(),
-        "endings: application closes (clean / with data in flight towards it / while the target keeps its own socket open afterwards), target closes (same three), one-shot upload closed at once, application resets, target resets, link cut by the tap (stream transports), target refuses, target name does not resolve".into(),
+        "endings: application closes (clean / with data in flight towards it / while the target keeps its own socket open afterwards), target closes (same three), one-shot upload closed at once, application resets, target resets, link cut by the tap (stream transports), target refuses, target name does not resolve, one-shot upload towards a target that comes for it 12.5 s later, server process killed / client process killed with flows open (QUIC is given its 30 s idle timeout plus margin to notice)".into(),
     ];
     // every ending on every transport, one protocol rotating with the seed, sequentially: exhaustive over (transport x ending)
     let protos = [Proto::Trojan, Proto::Vmess(3), Proto::Ss22(crate::refimpl::ss2022::C22::Aes128), Proto::SsLegacy(crate::refimpl::ss::Legacy::ChaCha20), Proto::Vmess(4), Proto::Ss22(crate::refimpl::ss2022::C22::ChaCha20)];
@@ -585,10 +679,10 @@ pub fn run(ctx: &mut PropCtx) {
             spec.workers = 2 + ((ti + ei) % 5) as u8;
             let hs = Hs::ALL[(ti + ei) % 4];
             let flows: Vec<FlowEnd> = (0..3).map(|k| FlowEnd { hs, first: 100 + 4000 * k, up: 30_000 * k + 1, down: 20_000 * (2 - k) + 1, end: *e }).collect();
-            cases.push(Case { spec, flows, concurrent: false });
+            cases.push(Case { spec, flows, concurrent: End::EXPENSIVE.contains(e) });
         }
     }
     rt::run_list(ctx, &Teardown, "each-ending-on-each-transport", cases);
     ctx.mark_exhaustive("each-ending-on-each-transport", "every ending of the catalogue on every transport (protocol rotates with the seed), three flows each, then the descriptor baseline");
-    rt::run_sub(ctx, &Teardown, ctx.tier.pick(28, 600));
+    rt::run_sub(ctx, &Teardown, ctx.tier.pick(22, 600));
 }
